@@ -606,6 +606,57 @@ theorem stepInTableText_spec (_hb : BodySpec) : ∀ (tok : Token) (s : State), T
       obtain ⟨f1, f2, f3⟩ := hfin s2 b2
       exact sat_takeOrigTable f1 f2 f3 hom
 
+/-- `orig_mode.take().unwrap()` at the end of `flush_pending_table_text` -/
+theorem sat_takeOrigTableMode {s : State} {om : Mode} (hi : HInv s) (h : SInv .inBody s)
+    (ho : s.origMode = some om) (hom : tableMode om = true) :
+    Sat (do
+      let s ← getS
+      match s.origMode with
+      | none => panicAt "unwrap-none" "rules.rs:1172" "orig_mode.take().unwrap()"
+      | some m =>
+        set { s with origMode := none }
+        pure m) s (fun m s' => HInv s' ∧ SInv m s') := by
+  obtain ⟨_, _, _, hntt, _, hnt, hnd, _, _, hstk⟩ := tableMode_facts hom
+  refine sat_getS_bind ?_
+  rw [ho]
+  dsimp only
+  refine sat_set_bind ?_
+  refine sat_pure ⟨hi.withOrig none, ?_⟩
+  have h1 : SInv om s := h.chmode (by decide) (fun _ => h.root rfl) (hstk _ _)
+    (fun hh => by rw [hnd] at hh; cases hh) hnt hntt
+  exact h1.withOrig hnt hntt none
+
+/-- `flush_pending_table_text` (the DOCTYPE token in "in table text"): the pending text is inserted as in the
+"anything else" arm; the builder is ready to continue in the original (table) mode -/
+theorem sat_flushPendingTableText {s : State} (ht : TI s) (hm : s.mode = .inTableText) :
+    Sat flushPendingTableText s (fun m s' => HInv s' ∧ SInv m s') := by
+  have hs : SInv .inTableText s := by have := ht.s; rw [hm] at this; exact this
+  have hr : Rooted s.dom s.openElems := hs.root rfl
+  obtain ⟨om, ho, hom⟩ := hs.tableText rfl
+  unfold flushPendingTableText
+  dsimp only
+  refine sat_getS_bind ?_
+  refine sat_modS_bind ?_
+  have hi0 : HInv { s with pendingTableText := [] } := ht.h.withPending []
+  have hs0 : SInv .inBody { s with pendingTableText := [] } :=
+    ⟨fun _ => hr, trivial, fun h => (by cases h), hs.headIn, fun h => (by cases h), fun h => (by cases h),
+      fun _ => rfl, hs.tmpl, hs.tmodes⟩
+  have hfin : ∀ s2, BStep { s with pendingTableText := [] } s2 →
+      HInv s2 ∧ SInv .inBody s2 ∧ s2.origMode = some om := fun s2 b =>
+    ⟨b.hinv, hs0.of_bstep hi0 b rfl (keeps_triv (fun _ => rfl)), by rw [b.origMode]; exact ho⟩
+  split
+  · refine sat_parseError.bind ?_
+    intro _ s1 hq1
+    have b1 : BStep { s with pendingTableText := [] } s1 := BStep.of_qf hi0 hr hq1
+    refine (sat_flushPendingFoster _ s1 b1.hinv b1.rooted).bind ?_
+    intro _ s2 b2
+    obtain ⟨f1, f2, f3⟩ := hfin s2 (b1.trans b2)
+    exact sat_takeOrigTableMode f1 f2 f3 hom
+  · refine (sat_flushPendingPlain _ _ hi0 hr).bind ?_
+    intro _ s2 b2
+    obtain ⟨f1, f2, f3⟩ := hfin s2 b2
+    exact sat_takeOrigTableMode f1 f2 f3 hom
+
 /-! ### `InCaption` -/
 
 /-- generate implied end tags, pop up to the element found by the scope test, clear the list of active
